@@ -23,3 +23,5 @@ pub mod c19;
 pub mod c03;
 pub mod c05;
 pub mod c01;
+pub mod c02;
+pub mod c06;
